@@ -302,4 +302,36 @@ pub fn c13(run: &mut Run) {
             Ok(())
         },
     );
+    // ---- the public Bezier constructor, given an easing's published control points, IS that easing
+    let grid: u64 = if quick { 1 << 14 } else { 1 << 20 };
+    run.enumerate(
+        "c13_public_bezier_constructor",
+        "for each of the 28 Bezier-defined built-ins: `Easing::Custom(CubicBezierEasing::new(published control points))` and the built-in of that name agree bit for bit at every x = k/grid (grid 2^14 quick, 2^20 thorough) - whatever evaluation rule the library uses, a curve built from the same four numbers through the public constructor is the same curve (this relation is independent of known finding D5); non-trivial = x not in {0,1}; every (easing, x) distinct",
+        28 * (grid + 1),
+        1 << 12,
+        true,
+        move |range, eo| {
+            for idx in range {
+                let (v, k) = ((idx / (grid + 1)) as usize, idx % (grid + 1));
+                let (name, p) = mv_model::PUBLISHED[v];
+                let Some(b) = BUILTINS.iter().find(|e| e.name() == name) else {
+                    return Err((json!({"index": idx}), format!("no built-in named {name}")));
+                };
+                let x = k as f32 / grid as f32;
+                let custom = Easing::Custom(Box::new(mina_core::easing::CubicBezierEasing::new(p[0] as f32, p[1] as f32, p[2] as f32, p[3] as f32)));
+                let (lhs, rhs) = (b.to_mina().calc(x), custom.calc(x));
+                if lhs.to_bits() != rhs.to_bits() {
+                    return Err((json!({"index": idx, "easing": name, "x": x}), format!("Easing::{name}.calc({x}) = {lhs} but CubicBezierEasing::new({}, {}, {}, {}).calc({x}) = {rhs}", p[0], p[1], p[2], p[3])));
+                }
+                eo.evaluated += 1;
+                if k != 0 && k != grid {
+                    eo.nontrivial += 1;
+                }
+                if k == grid / 3 && v % 9 == 0 {
+                    eo.sample(|| json!({"easing": name, "points": p, "x": x, "value": lhs}));
+                }
+            }
+            Ok(())
+        },
+    );
 }
